@@ -3,7 +3,7 @@ From Coq Require Import List Arith ZArith.
 Import ListNotations.
 From Exmex.Model Require Import Base EvalBinary Lexer Flat Deep Convert.
 From Exmex.Spec Require Import RefSem.
-From Exmex.Proofs Require Import CompileCorrect FlatPev DeepSem DeepCompile DeepParse C03Main C01Main C01Vars C11Main ConvertMain ToDeep ConvertCompose.
+From Exmex.Proofs Require Import CompileCorrect FlatPev DeepSem DeepCompile DeepParse C03Main C01Main C01Vars C11Main ConvertMain ToDeep ConvertCompose Accept.
 Open Scope nat_scope.
 
 (* 1. The deep parser (recursive descent, one folded sub-expression per parenthesis group and per variable under unary
@@ -26,6 +26,26 @@ Theorem C03_deep_parse_is_reference :
 Proof.
   intros D C tb R Hr Hs Ht Hb Hu Ha c vals Hwf Hlen.
   exact (deep_parse_is_reference C tb R Hr Hs Ht Hb Hu Ha c vals Hwf Hlen).
+Qed.
+
+(* ... through the entry point on token lists (the precondition check accepts every rendering of a well-formed tree) *)
+Theorem C03_deep_token_entry_point :
+  forall (D : Type) (C : carrier D) (tb : optable) (R : D -> D -> Prop),
+  (forall a, R a a) -> (forall a b, R a b -> R b a) -> (forall a b c, R a b -> R b c -> R a c) ->
+  (forall k a a' b b', R a a' -> R b b' -> R (binf C k a b) (binf C k a' b')) ->
+  (forall k a a', R a a' -> R (unf C k a) (unf C k a')) ->
+  (forall o, comm_of tb o = true -> forall a b c, R (binf C o (binf C o a b) c) (binf C o a (binf C o b c))) ->
+  forall (c : chain (D:=D)) (vals : list D),
+  wf_chain tb c = true -> length vals = length (find_parsed_vars (flatten c)) ->
+  exists e v,
+    parse_deep_tokens C tb (flatten c) = Ok e /\
+    dvars e = find_parsed_vars (flatten c) /\
+    eval_deep C e vals = Ok v /\
+    R v (ref_chain C tb (find_parsed_vars (flatten c)) vals c).
+Proof.
+  intros D C tb R Hr Hs Ht Hb Hu Ha c vals Hwf Hlen.
+  destruct (deep_parse_is_reference C tb R Hr Hs Ht Hb Hu Ha c vals Hwf Hlen) as (e & v & H1 & H2 & H3 & H4).
+  exists e, v. unfold parse_deep_tokens. rewrite (rendering_accepted tb c Hwf). cbn [bind]. rewrite H1. cbn [bind]. repeat split; assumption.
 Qed.
 
 (* 2. Hence the two forms agree: same variables, values equal modulo R, for every well-formed tree and assignment. *)
@@ -144,6 +164,7 @@ Proof. vm_compute. reflexivity. Qed.
    directly (the flat parse of every accepted token list and its conversions are covered by 4-6), and the operator
    listings. *)
 Print Assumptions C03_deep_parse_is_reference.
+Print Assumptions C03_deep_token_entry_point.
 Print Assumptions C03_flat_and_deep_agree.
 Print Assumptions C03_deep_eval_is_denotation.
 Print Assumptions C03_flat_to_deep.
